@@ -94,16 +94,15 @@ theorem R.withStore {c : Cfg} {a : ANode} (r : R c a) (s' : Store)
 /-- what a crash restart yields, relative to the node `a` whose DA double, marks and `SetFinal` log it keeps and the image
 `s'` it restarts on -/
 structure CutFacts (c : Cfg) (a a' : ANode) (s' : Store) : Prop where
-  hdrWm : a'.n.hdrWm ≤ wmRaise c a.n.hdrWm
-  dataWm : a'.n.dataWm ≤ wmRaise c a.n.dataWm
-  height : a'.n.store.height = s'.height
   daBlobs : a'.daBlobs = a.daBlobs
+  daBytes : a'.daBytes = a.daBytes
   daH : a'.daH = a.daH
   finals : a'.finals = a.finals
   hMarks : a'.hMarks = []
   dMarks : a'.dMarks = []
   daInc : a'.daInc = loadInc c s'
   incLe : a'.daInc ≤ a.daInc
+  incMeta : a'.n.store.getMeta daIncKey = s'.getMeta daIncKey
 
 /-- **a crash restart on such an image succeeds and yields a reachable node** -/
 theorem R.crashOn {c : Cfg} {a : ANode} (r : R c a) (s' : Store)
@@ -112,17 +111,710 @@ theorem R.crashOn {c : Cfg} {a : ANode} (r : R c a) (s' : Store)
     (ph : ∃ w, wmOf s' (wmKey false) = some w ∧ w ≤ a.n.hdrWm)
     (pd : ∃ w, wmOf s' (wmKey true) = some w ∧ w ≤ a.n.dataWm)
     (pi : loadInc c s' ≤ a.daInc) :
-    ∃ a', restart c a s' false = some a' ∧ R c a' ∧ CutFacts c a a' s' := by
+    ∃ a', Submit.restart c a s' false = some a' ∧ R c a' ∧ CutFacts c a a' s' := by
   obtain ⟨a', h, r', f⟩ := (r.withStore s' hl hsy hh hb ph pd pi).restart false
   rw [show (a.withStore s').n.store = s' from rfl, restart_withStore] at h
-  exact ⟨a', h, r', ⟨f.hdrWm, f.dataWm, f.height, f.daBlobs, f.daH, f.finals, f.hMarks, f.dMarks, f.daInc,
-    by rw [f.daInc]; exact pi⟩⟩
+  exact ⟨a', h, r', ⟨f.daBlobs, f.daBytes, f.daH, f.finals, f.hMarks, f.dMarks, f.daInc,
+    by rw [f.daInc]; exact pi, f.incMeta⟩⟩
 
 /-- on the node's own image -/
 theorem R.crashOwn {c : Cfg} {a : ANode} (r : R c a) :
-    ∃ a', restart c a a.n.store false = some a' ∧ R c a' ∧ CutFacts c a a' a.n.store := by
+    ∃ a', Submit.restart c a a.n.store false = some a' ∧ R c a' ∧ CutFacts c a a' a.n.store := by
   obtain ⟨a', h, r', f⟩ := r.restart false
-  exact ⟨a', h, r', ⟨f.hdrWm, f.dataWm, f.height, f.daBlobs, f.daH, f.finals, f.hMarks, f.dMarks, f.daInc,
-    by rw [f.daInc]; exact r.pdw.2⟩⟩
+  exact ⟨a', h, r', ⟨f.daBlobs, f.daBytes, f.daH, f.finals, f.hMarks, f.dMarks, f.daInc,
+    by rw [f.daInc]; exact r.pdw.2, f.incMeta⟩⟩
+
+/-! ### crash inside a submission tick -/
+
+theorem synced_of_same {c : Cfg} {n n' : Node} (h : Synced c n) (hs : n'.store.state = n.store.state)
+    (hl : n'.lastState = n.lastState) : Synced c n' := by
+  unfold Synced at h ⊢; rw [hs, hl]; exact h
+
+theorem wmOf_setMeta_le64 (s : Store) (key : String) (v : Nat) :
+    ∃ w, wmOf (s.apply (.setMeta key (le64 v))) key = some w ∧ w ≤ v :=
+  wmOf_le64 (by simp [Store.apply, Store.getMeta])
+
+/-- **a crash after any number of the durable writes of a submission tick** (the watermark writes, one per acknowledged
+chunk): the restart succeeds and yields a reachable node; the DA double keeps what was submitted, the reloaded watermark
+is one of the values written (or the old one), never above what the DA layer acknowledged -/
+theorem cut_iter {c : Cfg} {d : Bool} {a a' : ANode} {items : List Item} {ws : List SW} (r : R c a) (rp : R c a')
+    (hi : IterInv d a items a' ws) (k : Nat) :
+    ∃ ac, Submit.restart c a' (a.n.store.applyPrefix k ws) false = some ac ∧ R c ac ∧
+      CutFacts c a' ac (a.n.store.applyPrefix k ws) ∧
+      loadInc c (a.n.store.applyPrefix k ws) = loadInc c a.n.store := by
+  have hmo : MetaOnly ws := fun w hw => by obtain ⟨v, hv, _⟩ := hi.writes w hw; exact ⟨_, _, hv⟩
+  obtain ⟨m1, m2, m3⟩ := metaOnly_prefix hmo a.n.store k
+  have hd : (a.n.store.applyPrefix k ws).getMeta daIncKey = a.n.store.getMeta daIncKey := by
+    apply getMeta_prefix_other
+    intro w hw k' v he
+    obtain ⟨v', hv, _⟩ := hi.writes w hw
+    rw [hv] at he
+    injection he with h1 _
+    rw [← h1]; cases d <;> decide
+  have hli := loadInc_congr (c := c) hd
+  have hown : ∃ w, wmOf (a.n.store.applyPrefix k ws) (wmKey d) = some w ∧ w ≤ wm d a' := by
+    refine applyPrefix_pres (P := fun s => ∃ w, wmOf s (wmKey d) = some w ∧ w ≤ wm d a') ?_ ?_ k
+    · intro s w hw _
+      obtain ⟨v, hv, _, hle⟩ := hi.writes w hw
+      rw [hv]
+      obtain ⟨x, q1, q2⟩ := wmOf_setMeta_le64 s (wmKey d) v
+      exact ⟨x, q1, Nat.le_trans q2 hle⟩
+    · cases d with
+      | false => obtain ⟨x, q1, q2⟩ := r.ph; exact ⟨x, q1, Nat.le_trans q2 hi.wmMono⟩
+      | true => obtain ⟨x, q1, q2⟩ := r.pd; exact ⟨x, q1, Nat.le_trans q2 hi.wmMono⟩
+  have hoth : ∃ w, wmOf (a.n.store.applyPrefix k ws) (wmKey (!d)) = some w ∧ w ≤ wm (!d) a' := by
+    have hm : (a.n.store.applyPrefix k ws).getMeta (wmKey (!d)) = a.n.store.getMeta (wmKey (!d)) := by
+      apply getMeta_prefix_other
+      intro w hw k' v he
+      obtain ⟨v', hv, _⟩ := hi.writes w hw
+      rw [hv] at he
+      injection he with h1 _
+      rw [← h1]; cases d <;> decide
+    rw [wmOf_congr_meta hm, hi.frame.otherWm]
+    cases d with
+    | false => exact r.pd
+    | true => exact r.ph
+  have hh : (a.n.store.applyPrefix k ws).height = a'.n.store.height := by rw [m1, hi.frame.height]
+  have hb : ∀ j, (a.n.store.applyPrefix k ws).getBlock j = a'.n.store.getBlock j := by
+    intro j; rw [m2, hi.frame.getBlock]
+  obtain ⟨ac, h1, h2, h3⟩ := rp.crashOn (a.n.store.applyPrefix k ws)
+    (Live.of_same rp.live hh hb rfl) (synced_of_same rp.synced (by show _ = a'.n.store.state; rw [m3, hi.frame.state]) rfl)
+    hh (fun j _ => hb j)
+    (by cases d with
+        | false => exact hown
+        | true => exact hoth)
+    (by cases d with
+        | false => exact hoth
+        | true => exact hown)
+    (by rw [hli, hi.frame.daInc]; exact r.pdw.2)
+  exact ⟨ac, h1, h2, h3, hli⟩
+
+/-! ### crash inside an inclusion pass -/
+
+/-- the durable writes of an inclusion pass: `rhb/<h>/…` and `d ↦ h` for the heights `h` it advanced to -/
+theorem incl_writes_mem (a : ANode) {w : SW} (hw : w ∈ (includerIter a).2) :
+    (∃ h p v, w = SW.setMeta (rhbKey h p) v) ∨
+    (∃ h, w = SW.setMeta daIncKey (le64 h) ∧ a.daInc < h ∧ h ≤ (includerIter a).1.daInc) := by
+  have hi : PassInv a (includerIter a).1 (includerIter a).2 :=
+    includerPass_inv (a.n.store.height + 1) a a [] (PassInv.init a)
+  obtain ⟨rec, _, hws⟩ := hi.writes
+  rw [hws] at hw
+  obtain ⟨h, hh, hw⟩ := List.mem_flatMap.mp hw
+  rw [List.mem_range'_1] at hh
+  simp only [incWrites, List.mem_cons, List.mem_nil_iff, or_false] at hw
+  rcases hw with rfl | rfl | rfl
+  · exact Or.inl ⟨_, _, _, rfl⟩
+  · exact Or.inl ⟨_, _, _, rfl⟩
+  · exact Or.inr ⟨h, rfl, by omega, by have := hi.mono; omega⟩
+
+/-- **a crash after any number of the durable writes of an inclusion pass** (three per height: the two recorded DA heights,
+then `d`): the restart succeeds and yields a reachable node whose DA-included height is what the image holds under `d`
+(raised to `initialHeight − 1`) — at most what the pass reported -/
+theorem cut_incl {c : Cfg} {a : ANode} (r : R c a) (rp : R c (includerIter a).1) (k : Nat) :
+    ∃ ac, Submit.restart c (includerIter a).1 (a.n.store.applyPrefix k (includerIter a).2) false = some ac ∧ R c ac ∧
+      CutFacts c (includerIter a).1 ac (a.n.store.applyPrefix k (includerIter a).2) := by
+  have hi : PassInv a (includerIter a).1 (includerIter a).2 :=
+    includerPass_inv (a.n.store.height + 1) a a [] (PassInv.init a)
+  have hmo : MetaOnly (includerIter a).2 := fun w hw => by
+    rcases incl_writes_mem a hw with ⟨h, p, v, rfl⟩ | ⟨h, rfl, _⟩ <;> exact ⟨_, _, rfl⟩
+  obtain ⟨m1, m2, m3⟩ := metaOnly_prefix hmo a.n.store k
+  have hkey : ∀ key, key ≠ daIncKey → key.toList.head? ≠ some 'r' →
+      (a.n.store.applyPrefix k (includerIter a).2).getMeta key = a.n.store.getMeta key := by
+    intro key k1 k2
+    apply getMeta_prefix_other
+    intro w hw k' v he
+    rcases incl_writes_mem a hw with ⟨h, p, v', rfl⟩ | ⟨h, rfl, _⟩ <;> injection he with h1 _ <;> rw [← h1]
+    · exact rhbKey_ne k2 h p
+    · exact Ne.symm k1
+  have hmono := hi.mono
+  have hinc : loadInc c (a.n.store.applyPrefix k (includerIter a).2) ≤ (includerIter a).1.daInc := by
+    refine applyPrefix_pres (P := fun s => loadInc c s ≤ (includerIter a).1.daInc) ?_ (Nat.le_trans r.pdw.2 hmono) k
+    intro s w hw q2
+    rcases incl_writes_mem a hw with ⟨h, p, v, rfl⟩ | ⟨h, rfl, h1, h2⟩
+    · have : (s.apply (SW.setMeta (rhbKey h p) v)).getMeta daIncKey = s.getMeta daIncKey := by
+        have hne : ¬ rhbKey h p = daIncKey := rhbKey_ne (by decide) h p
+        simp [Store.apply, Store.getMeta, hne]
+      rw [loadInc_congr this]; exact q2
+    · have hm : (s.apply (SW.setMeta daIncKey (le64 h))).getMeta daIncKey = some (le64 h) := by
+        simp [Store.apply, Store.getMeta]
+      have hlow : c.initialHeight - 1 ≤ h := by have := r.pdw.1; omega
+      exact Nat.le_trans (loadInc_le64 hm hlow) h2
+  have hh : (a.n.store.applyPrefix k (includerIter a).2).height = (includerIter a).1.n.store.height := by
+    rw [m1]; exact hi.frame.height.symm
+  have hb : ∀ j, (a.n.store.applyPrefix k (includerIter a).2).getBlock j = (includerIter a).1.n.store.getBlock j := by
+    intro j; rw [m2, hi.frame.getBlock]
+  refine rp.crashOn _ (Live.of_same rp.live hh hb rfl)
+    (synced_of_same rp.synced (by show _ = (includerIter a).1.n.store.state; rw [m3]; exact hi.frame.state.symm) rfl)
+    hh (fun j _ => hb j) ?_ ?_ hinc
+  · rw [wmOf_congr_meta (hkey _ (by decide) (by decide))]
+    obtain ⟨x, q1, q2⟩ := r.ph
+    exact ⟨x, q1, by rw [show (includerIter a).1.n.hdrWm = a.n.hdrWm from hi.frame.hdrWm]; exact q2⟩
+  · rw [wmOf_congr_meta (hkey _ (by decide) (by decide))]
+    obtain ⟨x, q1, q2⟩ := r.pd
+    exact ⟨x, q1, by rw [show (includerIter a).1.n.dataWm = a.n.dataWm from hi.frame.dataWm]; exact q2⟩
+
+/-! ### crash inside a production step -/
+
+theorem startTail_window (c : Cfg) (s : State) (d : Store) (hgt : s.lastHeight > d.height) (ws1 ws2 : List SW) :
+    (startTail c s d ws1).map Prod.fst = (startTail c s (d.apply (.setHeight s.lastHeight)) ws2).map Prod.fst := by
+  have h1 : d.applyAll (setHeightW d s.lastHeight) = d.apply (.setHeight s.lastHeight) := by
+    simp [setHeightW, hgt, Store.applyAll]
+  have hh : (d.apply (.setHeight s.lastHeight)).height = s.lastHeight := by simp [Store.apply, hgt]
+  have h2 : (d.apply (.setHeight s.lastHeight)).applyAll (setHeightW (d.apply (.setHeight s.lastHeight)) s.lastHeight) =
+      d.apply (.setHeight s.lastHeight) := by
+    simp [setHeightW, hh, Store.applyAll]
+  unfold startTail
+  simp only [h1, h2]
+  split <;> rfl
+
+theorem restart_of_start_fst {c : Cfg} {d d' : Store} (h : (start c d).map Prod.fst = (start c d').map Prod.fst)
+    (a : ANode) (clean : Bool) : restart c a d clean = restart c a d' clean := by
+  unfold restart
+  cases h1 : start c d with
+  | error e1 =>
+    cases h2 : start c d' with
+    | error e2 => rfl
+    | ok p2 => rw [h1, h2] at h; cases h
+  | ok p1 =>
+    cases h2 : start c d' with
+    | error e2 => rw [h1, h2] at h; cases h
+    | ok p2 =>
+      rw [h1, h2] at h
+      simp only [Except.map] at h
+      obtain ⟨n1, w1⟩ := p1
+      obtain ⟨n2, w2⟩ := p2
+      have : n1 = n2 := by simpa using h
+      subst this; rfl
+
+/-- the window between `updateState` and `setHeight` of a committing step: a restart raises the chain height to the
+state's height, which gives the node a restart on the completed image gives -/
+theorem restart_window {c : Cfg} {d : Store} {s : State} (hs : d.state = some s) (hgt : s.lastHeight > d.height)
+    (a : ANode) (clean : Bool) :
+    restart c a d clean = restart c a (d.apply (.setHeight s.lastHeight)) clean := by
+  apply restart_of_start_fst
+  have hs' : (d.apply (.setHeight s.lastHeight)).state = some s := by rw [state_setHeight]; exact hs
+  rw [start_eq, start_eq, hs, hs']
+  simp only
+  by_cases hg : c.initialHeight > s.lastHeight
+  · simp [hg]
+  · rw [if_neg hg, if_neg hg]
+    exact startTail_window c s d hgt [] []
+
+theorem harmless_meta {c : Cfg} {n : Node} {w : SW} (hw : Harmless c n w) {k' : String} {v : Bytes}
+    (he : w = SW.setMeta k' v) : k' = lastBatchDataKey := by
+  cases hw with
+  | cursor v' => injection he with h1 _; exact h1.symm
+  | pending b _ _ => cases he
+
+/-- a crash inside the harmless part of a production step (batch cursor, early save, final save: before `updateState`) -/
+theorem cut_harmless {c : Cfg} {a : ANode} (r : R c a) {l : List SW} (hl : ∀ w ∈ l, Harmless c a.n w) :
+    ∃ ac, Submit.restart c a (a.n.store.applyAll l) false = some ac ∧ R c ac ∧ CutFacts c a ac (a.n.store.applyAll l) := by
+  obtain ⟨f1, f2, f3, f4⟩ := harmless_applyAll r.live hl
+  have hkey : ∀ key, key ≠ lastBatchDataKey → (a.n.store.applyAll l).getMeta key = a.n.store.getMeta key := by
+    intro key hk
+    apply getMeta_applyAll_other
+    intro w hw k' v he
+    rw [harmless_meta (hl w hw) he]; exact Ne.symm hk
+  refine r.crashOn _ f1 ?_ f2 (fun k hk => f3 k (by omega)) ?_ ?_ ?_
+  · exact synced_of_same (n := a.n) r.synced f4 rfl
+  · rw [wmOf_congr_meta (hkey _ (by decide))]; exact r.ph
+  · rw [wmOf_congr_meta (hkey _ (by decide))]; exact r.pd
+  · rw [loadInc_congr (hkey _ (by decide))]; exact r.pdw.2
+
+theorem CutFacts.congr {c : Cfg} {a b ac : ANode} {s s' : Store} (f : CutFacts c a ac s)
+    (h3 : b.daBlobs = a.daBlobs) (h3' : b.daBytes = a.daBytes) (h4 : b.daH = a.daH)
+    (h5 : b.finals = a.finals) (h6 : b.daInc = a.daInc) (h7 : s'.getMeta daIncKey = s.getMeta daIncKey) :
+    CutFacts c b ac s' :=
+  ⟨by rw [h3]; exact f.daBlobs, by rw [h3']; exact f.daBytes, by rw [h4]; exact f.daH,
+   by rw [h5]; exact f.finals, f.hMarks, f.dMarks, by rw [loadInc_congr h7]; exact f.daInc, by rw [h6]; exact f.incLe,
+   by rw [h7]; exact f.incMeta⟩
+
+/-- **a crash after any number of the durable writes of a production step** — batch cursor, early save, final save,
+`updateState`, `setHeight` —: the restart succeeds and yields a reachable node (in the window between `updateState` and
+`setHeight` the restart completes the commit) -/
+theorem cut_produce {c : Cfg} {a : ANode} (r : R c a) (rs : SeqResp) (e : ExecResp)
+    (rp : R c { a with n := (publish c a.n rs e).1 }) (k : Nat) :
+    ∃ ac, Submit.restart c { a with n := (publish c a.n rs e).1 } (a.n.store.applyPrefix k (publish c a.n rs e).2.1) false
+        = some ac ∧ R c ac ∧
+      CutFacts c { a with n := (publish c a.n rs e).1 } ac (a.n.store.applyPrefix k (publish c a.n rs e).2.1) := by
+  obtain ⟨w1, w2⟩ := publish_wm c a.n rs e
+  obtain ⟨pre, hpre, hsh⟩ := publish_shape r.live rs e
+  -- a cut inside the harmless writes
+  have hcase : ∀ j, ∃ ac, Submit.restart c { a with n := (publish c a.n rs e).1 } (a.n.store.applyAll (pre.take j)) false
+      = some ac ∧ R c ac ∧ CutFacts c { a with n := (publish c a.n rs e).1 } ac (a.n.store.applyAll (pre.take j)) := by
+    intro j
+    obtain ⟨ac, q1, q2, q3⟩ := cut_harmless r (l := pre.take j) (fun w hw => hpre w (List.mem_of_mem_take hw))
+    exact ⟨ac, q1, q2, q3.congr rfl rfl rfl rfl rfl rfl⟩
+  unfold Store.applyPrefix
+  rcases hsh with ⟨b1, b2, _, _⟩ | ⟨st', b1, b2, b3, b4, _⟩
+  · rw [b1]; exact hcase k
+  · rw [b2]
+    by_cases hk : k ≤ pre.length
+    · rw [List.take_append_of_le_length hk]; exact hcase k
+    · obtain ⟨j, hj⟩ : ∃ j, k - pre.length = j + 1 := ⟨k - pre.length - 1, by omega⟩
+      rw [List.take_append, List.take_of_length_le (by omega : pre.length ≤ k), hj]
+      obtain ⟨ac, q1, q2, q3⟩ := rp.crashOwn
+      have hpost : (publish c a.n rs e).1.store =
+          a.n.store.applyAll (pre ++ [SW.updateState st', SW.setHeight (a.n.store.height + 1)]) := b3
+      cases j with
+      | succ j =>
+        -- both writes of the commit are durable: the image is the node's store
+        have : List.take (j + 1 + 1) (commitTail a.n.store.height st') =
+            [SW.updateState st', SW.setHeight (a.n.store.height + 1)] := by simp [commitTail]
+        rw [this, ← hpost]
+        exact ⟨ac, q1, q2, q3⟩
+      | zero =>
+        -- the window: `updateState` is durable, `setHeight` is not
+        have : List.take (0 + 1) (commitTail a.n.store.height st') = [SW.updateState st'] := by simp [commitTail]
+        rw [this]
+        obtain ⟨_, f2, _, _⟩ := harmless_applyAll r.live hpre
+        have hd : a.n.store.applyAll (pre ++ [SW.updateState st']) = (a.n.store.applyAll pre).apply (.updateState st') := by
+          simp [Store.applyAll]
+        have hst : (a.n.store.applyAll (pre ++ [SW.updateState st'])).state = some st' := by rw [hd]; rfl
+        have hht : (a.n.store.applyAll (pre ++ [SW.updateState st'])).height = a.n.store.height := by rw [hd]; exact f2
+        have hnext : (a.n.store.applyAll (pre ++ [SW.updateState st'])).apply (.setHeight st'.lastHeight) =
+            (publish c a.n rs e).1.store := by
+          rw [hpost, b1]; simp [Store.applyAll]
+        have hwin := restart_window (c := c) hst (by rw [hht, b1]; omega) { a with n := (publish c a.n rs e).1 } false
+        rw [hnext] at hwin
+        refine ⟨ac, by rw [hwin]; exact q1, q2, q3.congr rfl rfl rfl rfl rfl ?_⟩
+        rw [← hnext]
+        simp only [Store.apply]
+        split <;> rfl
+
+/-! ### histories with restarts and crashes at write granularity -/
+
+/-- one action of the node with the durable writes it issued, in order -/
+def stepAW (c : Cfg) (a : ANode) : Act → ANode × List SW
+  | .produce r e => ({ a with n := (publish c a.n r e).1 }, (publish c a.n r e).2.1)
+  | .subH s => ((headersIter a s).1, (headersIter a s).2.1)
+  | .subD s => ((dataIter a s).1, (dataIter a s).2.1)
+  | .incl => includerIter a
+
+theorem stepAW_fst (c : Cfg) (a : ANode) (x : Act) : (stepAW c a x).1 = stepA c a x := by
+  cases x <;> rfl
+
+/-- a history state: the node, the durable image before its last action and the durable writes of that action (what a
+crash can cut); after a (re)start the writes are taken as complete (a restart issues only idempotent writes) -/
+structure CSt where
+  a : ANode
+  base : Store
+  ws : List SW
+
+/-- an action, a restart on the current image after a clean stop (`clean`) or a crash between two actions, or **a crash
+after the first `k` durable writes of the last action** -/
+inductive ActR
+  | act (x : Act)
+  | restart (clean : Bool)
+  | crash (k : Nat)
+
+def stepR (c : Cfg) (σ : CSt) : ActR → CSt
+  | .act x => ⟨(stepAW c σ.a x).1, σ.a.n.store, (stepAW c σ.a x).2⟩
+  | .restart clean =>
+    match Submit.restart c σ.a σ.a.n.store clean with
+    | some a' => ⟨a', σ.a.n.store, []⟩
+    | none => σ
+  | .crash k =>
+    match Submit.restart c σ.a (σ.base.applyPrefix k σ.ws) false with
+    | some a' => ⟨a', σ.base.applyPrefix k σ.ws, []⟩
+    | none => σ
+
+def runR (c : Cfg) (σ : CSt) (acts : List ActR) : CSt := acts.foldl (stepR c) σ
+
+/-- the first start, on an empty disk -/
+def freshC (c : Cfg) : CSt := ⟨freshA c, {}, []⟩
+
+theorem runR_act (c : Cfg) (σ : CSt) (acts : List Act) : (runR c σ (acts.map .act)).a = runA c σ.a acts := by
+  induction acts generalizing σ with
+  | nil => rfl
+  | cons x acts ih =>
+    show (runR c (stepR c σ (.act x)) (acts.map .act)).a = runA c (stepA c σ.a x) acts
+    rw [ih]; show runA c (stepAW c σ.a x).1 acts = _; rw [stepAW_fst]
+
+theorem restart_congr_fields (c : Cfg) {a b : ANode} (d : Store) (h1 : b.finals = a.finals) (h2 : b.daH = a.daH)
+    (h3 : b.daBlobs = a.daBlobs) (h4 : b.daBytes = a.daBytes) :
+    Submit.restart c b d false = Submit.restart c a d false := by
+  unfold Submit.restart
+  cases start c d with
+  | error e => rfl
+  | ok p => simp [h1, h2, h3, h4]
+
+/-- the invariant of histories: the node is reachable, and **every crash image of its last action restarts into a
+reachable node** -/
+structure CI (c : Cfg) (σ : CSt) : Prop where
+  r : R c σ.a
+  cuts : ∀ k, ∃ ac, Submit.restart c σ.a (σ.base.applyPrefix k σ.ws) false = some ac ∧ R c ac ∧
+    CutFacts c σ.a ac (σ.base.applyPrefix k σ.ws)
+
+theorem applyPrefix_nil (s : Store) (k : Nat) : s.applyPrefix k [] = s := by
+  unfold Store.applyPrefix; simp [Store.applyAll]
+
+theorem CI.ofOwn {c : Cfg} {a : ANode} (r : R c a) : CI c ⟨a, a.n.store, []⟩ :=
+  ⟨r, fun k => by
+    have hp : (⟨a, a.n.store, []⟩ : CSt).base.applyPrefix k (⟨a, a.n.store, []⟩ : CSt).ws = a.n.store := applyPrefix_nil _ _
+    rw [hp]; exact r.crashOwn⟩
+
+theorem CI_fresh (c : Cfg) (h1 : 1 ≤ c.initialHeight) : CI c (freshC c) := by
+  refine ⟨R_fresh c h1, fun k => ?_⟩
+  have hp : (freshC c).base.applyPrefix k (freshC c).ws = {} := applyPrefix_nil _ _
+  rw [hp]
+  have he : Submit.restart c (freshA c) {} false = some (freshA c) := restart_empty c false
+  obtain ⟨_, _, hkv, _⟩ := freshDisk_facts c
+  refine ⟨freshA c, he, R_fresh c h1, ⟨rfl, rfl, rfl, rfl, rfl, rfl, ?_, Nat.le_refl _, ?_⟩⟩
+  · show c.initialHeight - 1 = loadInc c {}
+    rw [loadInc_none rfl]
+  · show (freshNode c).store.getMeta daIncKey = none
+    exact hkv _ (by decide) (by decide)
+
+theorem CI.step {c : Cfg} {σ : CSt} (ci : CI c σ) (x : ActR) : CI c (stepR c σ x) := by
+  cases x with
+  | act x =>
+    have rp : R c (stepAW c σ.a x).1 := by rw [stepAW_fst]; exact ci.r.step x
+    refine ⟨rp, fun k => ?_⟩
+    cases x with
+    | produce rs e => exact cut_produce ci.r rs e rp k
+    | subH s =>
+      obtain ⟨_, hi, _⟩ := headersIter_iter σ.a s
+      obtain ⟨ac, q1, q2, q3, _⟩ := cut_iter ci.r rp hi k
+      exact ⟨ac, q1, q2, q3⟩
+    | subD s =>
+      obtain ⟨_, hi, _⟩ := dataIter_iter σ.a s
+      obtain ⟨ac, q1, q2, q3, _⟩ := cut_iter ci.r rp hi k
+      exact ⟨ac, q1, q2, q3⟩
+    | incl => exact cut_incl ci.r rp k
+  | restart clean =>
+    obtain ⟨a', h, r', f⟩ := ci.r.restart clean
+    show CI c (match Submit.restart c σ.a σ.a.n.store clean with
+      | some a' => ⟨a', σ.a.n.store, []⟩
+      | none => σ)
+    rw [h]
+    refine ⟨r', fun k => ?_⟩
+    have hp : (⟨a', σ.a.n.store, []⟩ : CSt).base.applyPrefix k (⟨a', σ.a.n.store, []⟩ : CSt).ws = σ.a.n.store :=
+      applyPrefix_nil _ _
+    rw [hp]
+    show ∃ ac, Submit.restart c a' σ.a.n.store false = some ac ∧ R c ac ∧ CutFacts c a' ac σ.a.n.store
+    rw [restart_congr_fields c _ f.finals f.daH f.daBlobs f.daBytes]
+    obtain ⟨ac, q1, q2, q3⟩ := ci.r.crashOwn
+    exact ⟨ac, q1, q2, ⟨by rw [q3.daBlobs, f.daBlobs], by rw [q3.daBytes, f.daBytes], by rw [q3.daH, f.daH], by rw [q3.finals, f.finals], q3.hMarks,
+      q3.dMarks, q3.daInc, by rw [q3.daInc, f.daInc]; exact Nat.le_refl _, q3.incMeta⟩⟩
+  | crash k =>
+    obtain ⟨ac, h, r', f⟩ := ci.cuts k
+    show CI c (match Submit.restart c σ.a (σ.base.applyPrefix k σ.ws) false with
+      | some a' => ⟨a', σ.base.applyPrefix k σ.ws, []⟩
+      | none => σ)
+    rw [h]
+    refine ⟨r', fun j => ?_⟩
+    have hp : (⟨ac, σ.base.applyPrefix k σ.ws, []⟩ : CSt).base.applyPrefix j (⟨ac, σ.base.applyPrefix k σ.ws, []⟩ : CSt).ws =
+        σ.base.applyPrefix k σ.ws := applyPrefix_nil _ _
+    rw [hp]
+    show ∃ ac', Submit.restart c ac (σ.base.applyPrefix k σ.ws) false = some ac' ∧ R c ac' ∧
+      CutFacts c ac ac' (σ.base.applyPrefix k σ.ws)
+    rw [restart_congr_fields c _ f.finals f.daH f.daBlobs f.daBytes]
+    exact ⟨ac, h, r', ⟨rfl, rfl, rfl, rfl, f.hMarks, f.dMarks, f.daInc, Nat.le_refl _, f.incMeta⟩⟩
+
+/-- **every history** — actions, clean restarts, crashes between two actions, crashes after any number of the durable
+writes of the last action (also repeatedly): no restart ever fails and the node is reachable (`R`) -/
+theorem CI.run {c : Cfg} {σ : CSt} (ci : CI c σ) (acts : List ActR) : CI c (runR c σ acts) := by
+  induction acts generalizing σ with
+  | nil => exact ci
+  | cons x acts ih => exact ih (ci.step x)
+
+/-! ### the durable DA-included height, exactly (chain heights below 2^64) -/
+
+/-- the image holds nothing under `d`, or `le64 v` for a height `v` in `[initialHeight − 1, B]` -/
+def DForm (c : Cfg) (B : Nat) (s : Store) : Prop :=
+  s.getMeta daIncKey = none ∨ ∃ v, s.getMeta daIncKey = some (le64 v) ∧ c.initialHeight - 1 ≤ v ∧ v ≤ B
+
+theorem DForm.mono {c : Cfg} {B B' : Nat} {s : Store} (h : DForm c B s) (hB : B ≤ B') : DForm c B' s := by
+  rcases h with h | ⟨v, h1, h2, h3⟩
+  · exact Or.inl h
+  · exact Or.inr ⟨v, h1, h2, by omega⟩
+
+theorem PDI.dform {c : Cfg} {a : ANode} (p : PDI c a) : DForm c a.daInc a.n.store := by
+  rcases p.2 with h | ⟨h, _⟩
+  · exact Or.inr ⟨_, h, p.1, Nat.le_refl _⟩
+  · exact Or.inl h
+
+theorem PDI.loadInc {c : Cfg} {a : ANode} (p : PDI c a) (hb : a.daInc < 2 ^ 64) : loadInc c a.n.store = a.daInc := by
+  rcases p.2 with h | ⟨h, h'⟩
+  · exact loadInc_some h hb p.1
+  · rw [loadInc_none h, h']
+
+/-- a node whose `d` and DA-included height were loaded from such an image -/
+theorem DForm.pdi {c : Cfg} {B : Nat} {s : Store} {a : ANode} (h : DForm c B s) (hb : B < 2 ^ 64)
+    (hm : a.n.store.getMeta daIncKey = s.getMeta daIncKey) (hd : a.daInc = Submit.loadInc c s) :
+    PDI c a ∧ DForm c a.daInc s := by
+  rcases h with h | ⟨v, h1, h2, h3⟩
+  · have : a.daInc = c.initialHeight - 1 := by rw [hd, loadInc_none h]
+    exact ⟨⟨by omega, Or.inr ⟨by rw [hm]; exact h, this⟩⟩, Or.inl h⟩
+  · have : a.daInc = v := by rw [hd, loadInc_some h1 (by omega) h2]
+    exact ⟨⟨by omega, Or.inl (by rw [hm, this]; exact h1)⟩, Or.inr ⟨v, h1, h2, by omega⟩⟩
+
+/-- a durable write that leaves `d` alone, or writes a height in `(lo, B]` under it -/
+def DOk (lo B : Nat) (w : SW) : Prop :=
+  (∀ k v, w = SW.setMeta k v → k ≠ daIncKey) ∨ ∃ h, w = SW.setMeta daIncKey (le64 h) ∧ lo < h ∧ h ≤ B
+
+theorem getMeta_apply_other (s : Store) (w : SW) (key : String) (h : ∀ k v, w = SW.setMeta k v → k ≠ key) :
+    (s.apply w).getMeta key = s.getMeta key := by
+  have := getMeta_applyAll_other s [w] key (fun w' hw' k v he => by
+    have : w' = w := by simpa using hw'
+    subst this; exact h k v he)
+  simpa [Store.applyAll] using this
+
+theorem dform_prefix {c : Cfg} {lo B : Nat} {l : List SW} (hl : ∀ w ∈ l, DOk lo B w) (hlo : c.initialHeight - 1 ≤ lo)
+    {s : Store} (h0 : DForm c B s) (k : Nat) : DForm c B (s.applyPrefix k l) := by
+  refine applyPrefix_pres (P := DForm c B) ?_ h0 k
+  intro s' w hw hs'
+  rcases hl w hw with h | ⟨h, rfl, h1, h2⟩
+  · unfold DForm; rw [getMeta_apply_other s' w _ h]; exact hs'
+  · exact Or.inr ⟨h, by simp [Store.apply, Store.getMeta], by omega, h2⟩
+
+/-- … and what a restart would report only grows, write by write -/
+theorem loadInc_prefix_ge {c : Cfg} {lo B : Nat} {l : List SW} (hl : ∀ w ∈ l, DOk lo B w) (hlo : c.initialHeight - 1 ≤ lo)
+    (hb : B < 2 ^ 64) {s : Store} (h0 : lo ≤ Submit.loadInc c s) (k : Nat) : lo ≤ Submit.loadInc c (s.applyPrefix k l) := by
+  refine applyPrefix_pres (P := fun s' => lo ≤ Submit.loadInc c s') ?_ h0 k
+  intro s' w hw hs'
+  rcases hl w hw with h | ⟨h, rfl, h1, h2⟩
+  · rw [loadInc_congr (getMeta_apply_other s' w _ h)]; exact hs'
+  · rw [loadInc_some (v := h) (by simp [Store.apply, Store.getMeta]) (by omega) (by omega)]; omega
+
+/-- the durable writes of every action leave `d` alone or write a height above the node's DA-included height and at most
+the one it reports afterwards -/
+theorem stepAW_dok {c : Cfg} {a : ANode} (hl : Live c a.n) (x : Act) :
+    ∀ w ∈ (stepAW c a x).2, DOk a.daInc (stepAW c a x).1.daInc w := by
+  cases x with
+  | produce rs e =>
+    intro w hw
+    left
+    intro k v he
+    obtain ⟨pre, hpre, hsh⟩ := publish_shape hl rs e
+    have hw' : w ∈ (publish c a.n rs e).2.1 := hw
+    have hmem : w ∈ pre ∨ w ∈ commitTail a.n.store.height (publish c a.n rs e).1.lastState ∨ True := Or.inr (Or.inr trivial)
+    rcases hsh with ⟨b1, _⟩ | ⟨st', _, b2, _⟩
+    · rw [b1] at hw'
+      rw [harmless_meta (hpre w hw') he]; decide
+    · rw [b2] at hw'
+      rcases List.mem_append.mp hw' with h | h
+      · rw [harmless_meta (hpre w h) he]; decide
+      · simp only [commitTail, List.mem_cons, List.mem_nil_iff, or_false] at h
+        rcases h with rfl | rfl <;> cases he
+  | subH s =>
+    intro w hw
+    obtain ⟨_, hi, _⟩ := headersIter_iter a s
+    obtain ⟨v, hv, _⟩ := hi.writes w hw
+    exact Or.inl (fun k v' he => by rw [hv] at he; injection he with h1 _; rw [← h1]; decide)
+  | subD s =>
+    intro w hw
+    obtain ⟨_, hi, _⟩ := dataIter_iter a s
+    obtain ⟨v, hv, _⟩ := hi.writes w hw
+    exact Or.inl (fun k v' he => by rw [hv] at he; injection he with h1 _; rw [← h1]; decide)
+  | incl =>
+    intro w hw
+    rcases incl_writes_mem a hw with ⟨h, p, v, rfl⟩ | ⟨h, rfl, h1, h2⟩
+    · exact Or.inl (fun k v' he => by injection he with h1 _; rw [← h1]; exact rhbKey_ne (by decide) h p)
+    · exact Or.inr ⟨h, rfl, h1, h2⟩
+
+/-- the strong invariant of histories: `CI`, the persisted DA-included height is the one in memory, and every crash image
+of the last action holds a well-formed `d` -/
+structure CS (c : Cfg) (σ : CSt) : Prop extends CI c σ where
+  pdi : PDI c σ.a
+  form : ∀ k, DForm c σ.a.daInc (σ.base.applyPrefix k σ.ws)
+
+theorem CS_fresh (c : Cfg) (h1 : 1 ≤ c.initialHeight) : CS c (freshC c) :=
+  { CI_fresh c h1 with
+    pdi := PDI_fresh c
+    form := fun k => by
+      have hp : (freshC c).base.applyPrefix k (freshC c).ws = {} := applyPrefix_nil _ _
+      rw [hp]; exact Or.inl rfl }
+
+/-- one step of a history whose DA-included height is below 2^64 (it is at most the chain height, a `uint64`) -/
+theorem CS.step {c : Cfg} {σ : CSt} (cs : CS c σ) (hb : σ.a.daInc < 2 ^ 64) (x : ActR) : CS c (stepR c σ x) := by
+  have ci' := cs.toCI.step x
+  cases x with
+  | act x =>
+    have hp : PDI c (stepAW c σ.a x).1 := by rw [stepAW_fst]; exact cs.pdi.step cs.r x
+    refine { ci' with pdi := hp, form := fun k => ?_ }
+    have hmono : σ.a.daInc ≤ (stepAW c σ.a x).1.daInc := by rw [stepAW_fst]; exact stepA_mono c σ.a x
+    exact dform_prefix (stepAW_dok cs.r.live x) cs.pdi.1 (cs.pdi.dform.mono hmono) k
+  | restart clean =>
+    obtain ⟨a', h, r', f⟩ := cs.r.restart clean
+    obtain ⟨e, p'⟩ := cs.pdi.restart h hb
+    have hst : stepR c σ (.restart clean) = ⟨a', σ.a.n.store, []⟩ := by
+      show (match Submit.restart c σ.a σ.a.n.store clean with
+        | some a' => (⟨a', σ.a.n.store, []⟩ : CSt)
+        | none => σ) = _
+      rw [h]
+    rw [hst] at ci' ⊢
+    refine { ci' with pdi := p', form := fun k => ?_ }
+    have hp : (⟨a', σ.a.n.store, []⟩ : CSt).base.applyPrefix k (⟨a', σ.a.n.store, []⟩ : CSt).ws = σ.a.n.store :=
+      applyPrefix_nil _ _
+    rw [hp]
+    show DForm c a'.daInc σ.a.n.store
+    rw [e]; exact cs.pdi.dform
+  | crash k =>
+    obtain ⟨ac, h, r', f⟩ := cs.cuts k
+    have hst : stepR c σ (.crash k) = ⟨ac, σ.base.applyPrefix k σ.ws, []⟩ := by
+      show (match Submit.restart c σ.a (σ.base.applyPrefix k σ.ws) false with
+        | some a' => (⟨a', σ.base.applyPrefix k σ.ws, []⟩ : CSt)
+        | none => σ) = _
+      rw [h]
+    rw [hst] at ci' ⊢
+    obtain ⟨p', fm⟩ := (cs.form k).pdi hb f.incMeta f.daInc
+    refine { ci' with pdi := p', form := fun j => ?_ }
+    have hp : (⟨ac, σ.base.applyPrefix k σ.ws, []⟩ : CSt).base.applyPrefix j (⟨ac, σ.base.applyPrefix k σ.ws, []⟩ : CSt).ws =
+        σ.base.applyPrefix k σ.ws := applyPrefix_nil _ _
+    rw [hp]; exact fm
+
+/-- **never decreases, step by step**: an action never lowers the DA-included height; a restart (clean, or after a crash
+between two actions) reports exactly the same height; a crash after `k` durable writes of the last action reports what
+the image holds — at most what the node reported -/
+theorem CS.mono_step {c : Cfg} {σ : CSt} (cs : CS c σ) (hb : σ.a.daInc < 2 ^ 64) :
+    (∀ x, σ.a.daInc ≤ (stepR c σ (.act x)).a.daInc) ∧
+    (∀ clean, (stepR c σ (.restart clean)).a.daInc = σ.a.daInc) ∧
+    (∀ k, (stepR c σ (.crash k)).a.daInc = Submit.loadInc c (σ.base.applyPrefix k σ.ws) ∧
+      (stepR c σ (.crash k)).a.daInc ≤ σ.a.daInc) := by
+  refine ⟨fun x => ?_, fun clean => ?_, fun k => ?_⟩
+  · show σ.a.daInc ≤ (stepAW c σ.a x).1.daInc
+    rw [stepAW_fst]; exact stepA_mono c σ.a x
+  · obtain ⟨a', h, _, _⟩ := cs.r.restart clean
+    obtain ⟨e, _⟩ := cs.pdi.restart h hb
+    show (match Submit.restart c σ.a σ.a.n.store clean with
+      | some a' => (⟨a', σ.a.n.store, []⟩ : CSt)
+      | none => σ).a.daInc = _
+    rw [h]; exact e
+  · obtain ⟨ac, h, _, f⟩ := cs.cuts k
+    show (match Submit.restart c σ.a (σ.base.applyPrefix k σ.ws) false with
+      | some a' => (⟨a', σ.base.applyPrefix k σ.ws, []⟩ : CSt)
+      | none => σ).a.daInc = _ ∧ (match Submit.restart c σ.a (σ.base.applyPrefix k σ.ws) false with
+      | some a' => (⟨a', σ.base.applyPrefix k σ.ws, []⟩ : CSt)
+      | none => σ).a.daInc ≤ _
+    rw [h]; exact ⟨f.daInc, f.incLe⟩
+
+/-- **a crash inside an action**: the node restarted on the image cut after `k` durable writes of the action reports a
+DA-included height between the one before the action and the one the action reported — never less than before -/
+theorem CS.crash_inside {c : Cfg} {σ : CSt} (cs : CS c σ) (x : Act) (k : Nat) (hb : (stepA c σ.a x).daInc < 2 ^ 64) :
+    σ.a.daInc ≤ (stepR c (stepR c σ (.act x)) (.crash k)).a.daInc ∧
+    (stepR c (stepR c σ (.act x)) (.crash k)).a.daInc ≤ (stepA c σ.a x).daInc ∧
+    (stepR c (stepR c σ (.act x)) (.crash k)).a.daInc = Submit.loadInc c (σ.a.n.store.applyPrefix k (stepAW c σ.a x).2) := by
+  have hmono := stepA_mono c σ.a x
+  have hb0 : σ.a.daInc < 2 ^ 64 := by omega
+  have cs1 := cs.step hb0 (.act x)
+  have hb1 : (stepR c σ (.act x)).a.daInc < 2 ^ 64 := by
+    show (stepAW c σ.a x).1.daInc < _; rw [stepAW_fst]; exact hb
+  obtain ⟨e, hle⟩ := (cs1.mono_step hb1).2.2 k
+  have hle' : (stepR c (stepR c σ (.act x)) (.crash k)).a.daInc ≤ (stepA c σ.a x).daInc := by
+    have : (stepR c σ (.act x)).a.daInc = (stepA c σ.a x).daInc := by
+      show (stepAW c σ.a x).1.daInc = _; rw [stepAW_fst]
+    rw [← this]; exact hle
+  refine ⟨?_, hle', e⟩
+  rw [e]
+  show σ.a.daInc ≤ Submit.loadInc c (σ.a.n.store.applyPrefix k (stepAW c σ.a x).2)
+  refine loadInc_prefix_ge (B := (stepAW c σ.a x).1.daInc) (stepAW_dok cs.r.live x) cs.pdi.1 ?_ ?_ k
+  · rw [stepAW_fst]; exact hb
+  · rw [cs.pdi.loadInc hb0]; exact Nat.le_refl _
+
+/-! ### the inclusion pass at write granularity: reported only after durable -/
+
+theorem includerPass_fuel_daInc : ∀ (j f : Nat) (a : ANode) (ws : List SW), j ≤ f →
+    (includerPass j a ws).1.daInc = min (a.daInc + j) (includerPass f a ws).1.daInc := by
+  intro j
+  induction j with
+  | zero =>
+    intro f a ws _
+    have := includerPass_mono f a ws
+    rw [includerPass_zero]; show a.daInc = _; omega
+  | succ j ih =>
+    intro f a ws hjf
+    obtain ⟨f', rfl⟩ : ∃ f', f = f' + 1 := ⟨f - 1, by omega⟩
+    rw [includerPass_succ, includerPass_succ]
+    cases h : incNext a with
+    | none => show a.daInc = min (a.daInc + (j + 1)) a.daInc; omega
+    | some p =>
+      obtain ⟨a', w⟩ := p
+      obtain ⟨_, hd, dd, _, rfl, _⟩ := incNext_some h
+      have := ih f' (advance a (a.daInc + 1) hd dd) (ws ++ w) (by omega)
+      simp only
+      rw [this]
+      show min (a.daInc + 1 + j) _ = min (a.daInc + (j + 1)) _
+      rw [Nat.add_assoc, Nat.add_comm 1 j]
+
+theorem tri (c : Cfg) (rec : Nat → Nat × Nat) : ∀ (m p k : Nat) (s : Store), c.initialHeight - 1 ≤ p → p + m < 2 ^ 64 →
+    Submit.loadInc c s = p →
+    Submit.loadInc c (s.applyPrefix k ((List.range' (p + 1) m).flatMap fun h => incWrites h (rec h).1 (rec h).2)) =
+      p + min (k / 3) m := by
+  intro m
+  induction m with
+  | zero => intro p k s _ _ hs; simp [applyPrefix_nil, hs]
+  | succ m ih =>
+    intro p k s hlo hb hs
+    rw [List.range'_succ]
+    simp only [List.flatMap_cons]
+    rw [show incWrites (p + 1) (rec (p + 1)).1 (rec (p + 1)).2 =
+      [SW.setMeta (rhbKey (p + 1) "h") (le64 (rec (p + 1)).1), SW.setMeta (rhbKey (p + 1) "d") (le64 (rec (p + 1)).2),
+       SW.setMeta daIncKey (le64 (p + 1))] from rfl]
+    have hr : ∀ (s' : Store) (q : String) (v : Bytes),
+        Submit.loadInc c (s'.apply (SW.setMeta (rhbKey (p + 1) q) v)) = Submit.loadInc c s' := by
+      intro s' q v
+      apply loadInc_congr
+      have hne : ¬ rhbKey (p + 1) q = daIncKey := rhbKey_ne (by decide) _ _
+      simp [Store.apply, Store.getMeta, hne]
+    unfold Store.applyPrefix
+    match k with
+    | 0 => simp [Store.applyAll, hs]
+    | 1 =>
+      simp only [List.cons_append, List.take_succ_cons, List.take_zero, Store.applyAll, List.foldl]
+      rw [hr, hs]; simp
+    | 2 =>
+      simp only [List.cons_append, List.take_succ_cons, List.take_zero, Store.applyAll, List.foldl]
+      rw [hr, hr, hs]; simp
+    | j + 3 =>
+      simp only [List.cons_append, List.take_succ_cons, List.nil_append]
+      have h3 : Submit.loadInc c (((s.apply (SW.setMeta (rhbKey (p + 1) "h") (le64 (rec (p + 1)).1))).apply
+          (SW.setMeta (rhbKey (p + 1) "d") (le64 (rec (p + 1)).2))).apply (SW.setMeta daIncKey (le64 (p + 1)))) = p + 1 :=
+        loadInc_some (v := p + 1) (by simp [Store.apply, Store.getMeta]) (by omega) (by omega)
+      have := ih (p + 1) j _ (by omega) (by omega) h3
+      unfold Store.applyPrefix at this
+      show Submit.loadInc c ((((s.apply _).apply _).apply _).applyAll _) = _
+      rw [this]
+      omega
+
+/-- **reported only after durable, at write granularity.**  An inclusion pass issues, per height, the writes `rhb/<h>/h`,
+`rhb/<h>/d`, `d ↦ h` and changes the value it reports only after them (`includerPass` with fuel `j` is the pass stopped
+after `j` advances).  If the process dies after `k` durable writes of the pass, the restarted node reports **exactly the
+height the pass reported at that instant** — the pass stopped after `k / 3` advances —: never a height whose `d` write was
+not durable, never less than what had been reported. -/
+theorem incl_cut_exact {c : Cfg} {a : ANode} (p : PDI c a) (hle : a.daInc ≤ a.n.store.height)
+    (hb : (includerIter a).1.daInc < 2 ^ 64) (k : Nat) (hk : k ≤ (includerIter a).2.length) :
+    Submit.loadInc c (a.n.store.applyPrefix k (includerIter a).2) = (includerPass (k / 3) a []).1.daInc := by
+  have hi : PassInv a (includerIter a).1 (includerIter a).2 :=
+    includerPass_inv (a.n.store.height + 1) a a [] (PassInv.init a)
+  obtain ⟨rec, _, hws⟩ := hi.writes
+  have hmono := hi.mono
+  have hq := hi.le hle
+  have hht : (includerIter a).1.n.store.height = a.n.store.height := hi.frame.height
+  have hlen : (includerIter a).2.length = 3 * ((includerIter a).1.daInc - a.daInc) := by
+    rw [hws]
+    generalize (includerIter a).1.daInc - a.daInc = m
+    generalize a.daInc + 1 = s
+    induction m generalizing s with
+    | zero => simp
+    | succ m ih => rw [List.range'_succ, List.flatMap_cons, List.length_append, ih]; simp [incWrites]; omega
+  have h1 := tri c rec ((includerIter a).1.daInc - a.daInc) a.daInc k a.n.store p.1 (by omega)
+    (p.loadInc (by omega))
+  rw [← hws] at h1
+  rw [h1]
+  have h2 := includerPass_fuel_daInc (k / 3) (a.n.store.height + 1) a [] (by omega)
+  rw [h2]
+  show _ = min (a.daInc + k / 3) (includerIter a).1.daInc
+  omega
+/-- along the history the DA-included height stays below 2^64 (it is at most the chain height, a `uint64` in the code) -/
+def Bounded (c : Cfg) (σ : CSt) (acts : List ActR) : Prop := ∀ n, (runR c σ (acts.take n)).a.daInc < 2 ^ 64
+
+theorem CS.run {c : Cfg} {σ : CSt} (cs : CS c σ) (acts : List ActR) (hb : Bounded c σ acts) : CS c (runR c σ acts) := by
+  induction acts generalizing σ with
+  | nil => exact cs
+  | cons x acts ih =>
+    have h0 : σ.a.daInc < 2 ^ 64 := hb 0
+    exact ih (cs.step h0 x) (fun n => hb (n + 1))
 
 end Submit
